@@ -44,6 +44,9 @@ type CheckCfg struct {
 	RacePass      bool              `json:"race_pass,omitempty"`
 	Env           map[string]string `json:"env,omitempty"`
 	MemLimitMB    int               `json:"mem_limit_mb,omitempty"`
+	// CrashPolicy: "violation" (default) or "crash-point" (a test process dying from a panic inside restic is just
+	// another crash: the schedule is recorded, skipped, and the shard is re-run).
+	CrashPolicy string `json:"crash_policy,omitempty"`
 
 	Level       string `json:"level"`
 	LevelText   string `json:"level_text"`
@@ -470,7 +473,7 @@ func doCheck(cfg *CheckCfg, tier, patch string, seed int64, scratch string, star
 			defer wg.Done()
 			sem <- struct{}{}
 			defer func() { <-sem }()
-			results[i], logs[i], errs[i] = runShard(bin, cfg, tier, seed, i, shards, scratch, "", deadline, false)
+			results[i], logs[i], errs[i] = runShardSkippingCrashes(bin, cfg, tier, seed, i, shards, scratch, deadline)
 		}(i)
 	}
 	wg.Wait()
@@ -861,4 +864,61 @@ func crashSignature(log string) string {
 		}
 	}
 	return ""
+}
+
+// runShardSkippingCrashes runs a shard; with crash_policy "crash-point" a shard that died from a panic inside
+// restic is re-run with the crashing schedule on its skip list (at most 8 times).
+func runShardSkippingCrashes(bin string, cfg *CheckCfg, tier string, seed int64, shard, shards int, scratch string, deadline time.Time) (*ShardResult, string, error) {
+	if cfg.CrashPolicy != "crash-point" {
+		return runShard(bin, cfg, tier, seed, shard, shards, scratch, "", deadline, false)
+	}
+	var skips []json.RawMessage
+	var notes []string
+	skipFile := filepath.Join(scratch, fmt.Sprintf("skip-%s-%d.json", cfg.ID, shard))
+	for attempt := 0; ; attempt++ {
+		if len(skips) > 0 {
+			buf, _ := json.Marshal(skips)
+			_ = os.WriteFile(skipFile, buf, 0o600)
+			if cfg.Env == nil {
+				cfg.Env = map[string]string{}
+			}
+		}
+		c := *cfg
+		if len(skips) > 0 {
+			c.Env = map[string]string{}
+			for k, v := range cfg.Env {
+				c.Env[k] = v
+			}
+			c.Env["VERIF_SKIP"] = skipFile
+		}
+		res, log, err := runShard(bin, &c, tier, seed, shard, shards, scratch, "", deadline, false)
+		crashed := false
+		if res != nil && err == nil {
+			var keep []Violation
+			for _, v := range res.Violations {
+				if strings.HasPrefix(v.Key, cfg.ID+"|process-crash|") && attempt < 8 {
+					crashed = true
+					skips = append(skips, v.Detail)
+					notes = append(notes, "process crash treated as a crash point and skipped: "+strings.TrimPrefix(v.Key, cfg.ID+"|process-crash|"))
+				} else {
+					keep = append(keep, v)
+				}
+			}
+			res.Violations = keep
+		}
+		if !crashed {
+			if res != nil {
+				res.Notes = append(res.Notes, notes...)
+				if len(notes) > 0 {
+					res.Exhaustive = false
+					res.Caps = append(res.Caps, fmt.Sprintf("%d schedule(s) crashed the test process (panic inside restic under injected faults); they count as crash points, their subtrees were not explored", len(notes)))
+					if res.Counters == nil {
+						res.Counters = map[string]int64{}
+					}
+					res.Counters["process_crashes_treated_as_crash_points"] += int64(len(notes))
+				}
+			}
+			return res, log, err
+		}
+	}
 }
